@@ -16,7 +16,7 @@ KINDS = (["bool", "float32", "float64"] + INT_KINDS + NULLABLE_INT + ["boolean"]
          ["str", "string", "bytes", "json",
           "dt_s", "dt_ms", "dt_us", "dt_ns", "dttz_s", "dttz_ms", "dttz_us", "dttz_ns",
           "td_us", "td_ns", "td_ms", "td_s",
-          "cat_str", "cat_int", "cat_float", "cat_str_ordered"])
+          "cat_str", "cat_int", "cat_float", "cat_str_ordered", "cat_bool", "cat_dt"])
 NULL_PATTERNS = ["none", "some", "all", "first", "last"]
 SIZES = [0, 1, 2, 7, 8, 9, 63, 64, 65, 127, 128, 129, 255, 256, 257, 8191, 8192, 8193]
 TZS = ["UTC", "Europe/Berlin", "US/Pacific"]
@@ -120,6 +120,12 @@ def col_values(cs, n):
             rng.shuffle(labels)                     # category order != value order
         elif kind == "cat_int":
             labels = rng.sample(range(-1000, 1000), ncat)
+        elif kind == "cat_bool":
+            ncat = min(ncat, 2)
+            labels = [[False, True], [True, False], [True], [False]][rng.randrange(4 if ncat == 1 else 2) if ncat == 2 else 2 + rng.randrange(2)]
+            ncat = len(labels)
+        elif kind == "cat_dt":
+            labels = [pd.Timestamp("2020-01-01") + pd.Timedelta(hours=h) for h in rng.sample(range(0, 100000), ncat)]
         else:
             labels = [x + 0.5 for x in rng.sample(range(-1000, 1000), ncat)]
         codes = np.array([rng.randrange(ncat) for _ in range(n)], dtype="int64")
